@@ -150,7 +150,10 @@ def der_mutants(r, s):
     good = rd.sig_value(r, s)
     out = [good, good + b"\x00", good[:-1], b"", good[:1], good[:2]]
     for i in range(len(good)):
-        for v in (0x00, 0x01, 0x02, 0x03, 0x30, 0x7f, 0x80, 0x81, 0xff):
+        # fixed steering values, and the byte's own neighbours (an off-by-one
+        # in a length octet of any form, short or long)
+        for v in sorted({0x00, 0x01, 0x02, 0x03, 0x30, 0x7f, 0x80, 0x81, 0xff,
+                         (good[i] + 1) & 0xff, (good[i] - 1) & 0xff}):
             if good[i] != v:
                 out.append(good[:i] + bytes([v]) + good[i + 1:])
         out.append(good[:i] + good[i + 1:])
@@ -178,6 +181,28 @@ def der_mutants(r, s):
             rd.tlv(0x30, rb + sb + b"\x02\x01\x01"), rd.tlv(0x30, rb),
             rd.tlv(0x31, rb + sb)]
     return out
+
+
+def der_header_mutants(r, s):
+    """the 1-deviation mutants of der_mutants() restricted to deviations in
+    the header octets (tags, length octets of every form, first content
+    octet) - what steers parsing - for production-size signatures"""
+    good = rd.sig_value(r, s)
+    rb, sb = rd.enc_int(r), rd.enc_int(s)
+    ln, p0 = rd.read_len(good, 1)
+    ln, p1 = rd.read_len(rb, 1)
+    ln, p2 = rd.read_len(sb, 1)
+    head = set(range(0, p0)) | set(range(p0, p0 + p1 + 1)) | \
+        set(range(p0 + len(rb), p0 + len(rb) + p2 + 1)) | {len(good) - 1}
+    keep = []
+    for m in der_mutants(r, s):
+        if len(m) != len(good):
+            keep.append(m)
+        else:
+            diff = [i for i in range(len(good)) if m[i] != good[i]]
+            if all(i in head for i in diff):
+                keep.append(m)
+    return keep
 
 
 def shard_der(arg):
@@ -382,6 +407,27 @@ def real_case(name, kind, d, k, digest):
         if r2 == 0:
             return None
         data, dec = rd.sig_value(r2, s), util.sigdecode_der
+    elif kind == "der-header-mutants":
+        for m in der_header_mutants(r, s):
+            try:
+                rs2 = rd.parse_sig(m)
+            except rd.Bad:
+                rs2 = None
+            if rs2 is None or not (1 <= rs2[0] < n and 1 <= rs2[1] < n):
+                exp = "BadSignatureError"
+            elif rs2 == (r, s):
+                exp = "True"
+            else:
+                exp = "True" if re_.verify(e, rs2[0], rs2[1], n, G, Q, p, a) \
+                    else "BadSignatureError"
+            got = outcome(lambda: vk.verify_digest(
+                m, dg, sigdecode=util.sigdecode_der, allow_truncate=True))
+            if got != exp:
+                return ("real:der-header-mutant:%s" % (
+                    "accepts-invalid" if got == "True" else
+                    "rejects-valid" if exp == "True" else "wrong-exception"),
+                    [m.hex(), exp], got)
+        return "ok"
     elif kind == "strings-valid":
         x = raw(r, s)
         data, dec, exp = [x[:l], x[l:]], util.sigdecode_strings, "True"
@@ -520,6 +566,10 @@ def main(ctx):
                 for dg in dgs:
                     for kind in REAL_KINDS:
                         rj.append((name, kind, d, k, dg))
+        hm = [(grid[1], grid[0])] if ctx.quick else \
+            [(d, k) for d in grid[:4] for k in grid[:2]]
+        for (d, k) in hm:
+            rj.append((name, "der-header-mutants", d, k, dgs[0]))
     for ch in common.chunks(rj, 8 * ctx.jobs):
         jobs.append((shard_real, "real-constructed", ch))
     rep = common.run_shards(ctx, jobs)
@@ -530,7 +580,10 @@ def main(ctx):
         "sub-grid), DER of (r,s) with all 1-deviation mutants, every wrong "
         "length; verdict must equal the reference FIPS verification on the "
         "decoded pair, rejection must be exactly BadSignatureError. real: 24 "
-        "constructed families per (curve, d, k, digest). Non-trivial = "
+        "constructed families per (curve, d, k, digest), and every "
+        "1-deviation mutant of the DER signature in its header octets (tags, "
+        "short- and long-form length octets +-1 and steering values, first "
+        "content octets, deletions, superfluous octets). Non-trivial = "
         "r and s both in [1, n-1] (toy pairs) / constructible (real).")
     rep.coverage["toy_curves"] = cover
     rep.coverage["real_curves"] = names
